@@ -53,6 +53,18 @@ STYLES = ('qmark', 'format', 'numeric', 'named', 'pyformat')
 F_CACHE = 'C30-ADAPT-SQL-CACHE-KEY-PERCENT'
 F_EXPR = 'C30-ADAPT-SQL-PERCENT-DOUBLED-IN-EXPR'
 
+def report_finding(ctx, fid, witness, cap=8):
+    """ctx.finding, but while `fid` is not an open known finding (so every hit is a VIOLATION witness) only the first
+    `cap` hits are submitted as witnesses - otherwise one mechanism fills all witness slots and hides the others."""
+    e = ctx.known.get(fid)
+    if (e is not None and e.get('status') == 'open' and e.get('property') == ctx.pid) \
+            or ctx.counters.get('submitted.' + fid, 0) < cap:
+        ctx.count('submitted.' + fid)
+        ctx.finding(fid, witness)
+    else:
+        ctx.count('not_submitted_beyond_cap.' + fid)
+
+
 # ---------------------------------------------------------------------------------------------
 # evaluation namespace for direct adapt_sql cases
 # ---------------------------------------------------------------------------------------------
@@ -372,7 +384,7 @@ def judge_cold(ctx, core, sql, style, ref_nf, g, l, part):
     dev = deviant_percent_nf(sql, style, g, l) if style in ('format', 'pyformat') else None
     if dev is not None and nf_equal(got, dev):
         ctx.count('outcome.percent_doubled_in_expr')
-        ctx.finding(F_EXPR, w)
+        report_finding(ctx, F_EXPR, w)
     else:
         ctx.count('outcome.disagree_cold')
         ctx.violation(w, mechanism='adapt-cold-' + got[0])
@@ -396,7 +408,7 @@ def judge_warm(ctx, core, sql, style, g, l, history, part):
     if style in ('format', 'pyformat') and earlier and any(nf_equal(got, pony_cold_of(core, h, style, g, l)) for h in earlier):
         w['earlier_text_equal_after_doubling'] = earlier[0]
         ctx.count('outcome.cache_key_percent_collision')
-        ctx.finding(F_CACHE, w)
+        report_finding(ctx, F_CACHE, w)
     else:
         ctx.count('outcome.disagree_warm')
         ctx.violation(w, mechanism='adapt-history-dependent')
